@@ -70,6 +70,10 @@ def ticks_record(d0, d1, m, pre=None):
                     s.nice(m)
                 elif call == "copy":
                     s = s.copy()
+                elif call.startswith("ticks_o:"):        # ticks / formatter asked for ANOTHER count earlier
+                    list(s.ticks(int(call[8:])))
+                elif call.startswith("format_o:"):
+                    s.tickFormat(int(call[9:]))
                 elif call == "redomain":
                     s.domain([d0 - 1.0, d1 + 3.0])
                     s.domain([d0, d1])
@@ -132,8 +136,8 @@ def map_record(a, b, x, x2, e_d, r0, r1, e_r, clamp, y0):
     s = LinearScale().domain([da, db]).range([r0f, r1f]).clamp(bool(clamp))
     ud = Fraction(10) ** e_d
     ur = Fraction(10) ** e_r
+    y2 = s.scale(x2 * fd)                  # both public entry points of the map: scale() and __call__
     y = s(x * fd)
-    y2 = s(x2 * fd)
     rec = {"kind": "map", "a": a, "b": b, "x": x, "x2": x2, "e_d": e_d, "r0": r0, "r1": r1, "e_r": e_r, "clamp": clamp,
            "y": sbig(Fraction(y) / ur * 10 ** 12), "y2": sbig(Fraction(y2) / ur * 10 ** 12),
            "at_a_exact": 1 if s(da) == r0f else 0, "at_b_exact": 1 if s(db) == r1f else 0,
@@ -172,9 +176,10 @@ def observe(s):
     d = s.domain()
     r = s.range()
     probe = 0.37 * d[0] + 0.63 * d[1] if d[0] != d[1] else d[0]
-    y0, y1 = s(d[0]), s(d[1])
+    y1 = s.scale(d[1])                     # both public entry points of the map: scale() and __call__
+    y0 = s(d[0])
     return {"d": [repr(float(x)) for x in d], "r": [repr(float(x)) for x in r], "c": 1 if s.clamp() else 0,
-            "y0": repr(float(y0)), "y1": repr(float(y1)), "yp": repr(float(s(probe))),
+            "y0": repr(float(y0)), "y1": repr(float(y1)), "yp": repr(float(s.scale(probe))),
             "e0": 1 if y0 == r[0] else 0, "e1": 1 if y1 == r[1] else 0}
 
 
@@ -295,7 +300,8 @@ def main():
                     recs.append(r)
             if rng.random() < 0.4:
                 pre = rng.choice([["ticks", "nice"], ["nice"], ["ticks", "format", "nice"], ["copy", "nice"], ["ticks", "redomain"],
-                                  ["ticks", "nice", "copy"]])
+                                  ["ticks", "nice", "copy"], ["ticks_o:2"], ["ticks_o:1", "format_o:100"], ["ticks_o:100", "nice"],
+                                  ["format_o:3", "ticks_o:2", "copy"], ["ticks_o:2", "redomain"]])
                 r = ticks_record(d0, d1, m, pre=pre)
                 if r is not None:
                     r["m"] = mm
